@@ -189,6 +189,20 @@ def typesOf : Term → List Ty → List Ty
   | .abs _ T b, acc => typesOf b (T :: acc)
   | .bound _, acc => acc
 
+/-- rough number of `sem` node visits for one valuation: binder domains multiply along a path;
+`equals` at carrier n costs n², `all` at carrier n costs 2ⁿ -/
+def evalCost (M : Model) : Term → Nat
+  | .const n T =>
+    match logicalKind n T with
+    | some (0, a) => M.size a * M.size a
+    | some (2, a) => 2 ^ (min (M.size a) 40)
+    | _ => 1
+  | .comb f a => evalCost M f + evalCost M a + 1
+  | .abs _ T b => M.size T * (evalCost M b + 1)
+  | _ => 1
+
+def MAXEVAL : Nat := 60000
+
 inductive SVerdict where
   | same (tried : Nat) (exhaustive : Bool)
   | diff (asg : List (Oracle.Atom × Nat))
@@ -203,6 +217,9 @@ def searchDiff (M : Model) (terms : List Term) (differs : Valuation → Bool)
   let atoms := terms.foldl (fun acc t => Oracle.atomsAcc t acc) []
   let sized := atoms.map (fun a => (a, M.size a.2.2))
   let cost := terms.foldl (fun c t => Oracle.costAcc M t c) 0
+  let ec := terms.foldl (fun c t => c + evalCost M t) 0
+  if ec > MAXEVAL then .skip s!"eval_cost_{ec}" else
+  let budget := max 1 (min budget (MAXEVAL / ec))
   if cost > maxCost then .skip s!"cost_{cost}"
   else if sized.any (fun p => p.2 > maxCost) then .skip "atom_size"
   else
